@@ -38,11 +38,15 @@ type params struct {
 	Store  string // default | payload
 	Narrow bool   // deviations only in the ack-wait path (withAckTimeoutCh, readResultLoop, readAckLoop): affordable with two deviations
 	SlowResume bool // the broker answers resume requests after 5 s
+	AckTO  bool   // the stream has an ack timeout of 1 s, and the client-to-broker direction of the link may stall at a chunk (pings still answered) until the link fails
 	Burst  int    // this many chunks stay unacknowledged; the broker then sends their results as single acks back to back and closes the link right behind them
 	Silent bool   // the failure is a broker that goes silent (message dropped, nothing answered any more): the keep-alive detects the outage
 }
 
 func (p params) name() string {
+	if p.AckTO {
+		return fmt.Sprintf("%s/%s/F%d/P%d/%s/acktimeout", p.Policy, strings.Join(p.Ops, ","), p.F, p.P, p.Store)
+	}
 	if p.Burst > 0 {
 		return fmt.Sprintf("%s/ackburst%d-then-eof/P%d", p.Policy, p.Burst, p.P)
 	}
@@ -87,6 +91,9 @@ func scenarios(tier string) []vlib.Scenario {
 	// outages detected by the keep-alive (the broker goes silent) instead of by a read error
 	add(params{Policy: "immediate", Ops: []string{"wA1", "wB1"}, F: 1, P: 0, Store: "default", Silent: true})
 	add(params{Policy: "immediate", Ops: []string{"wA1", "wB1"}, F: 1, P: 1, Store: "default", Silent: true})
+	// an ack timeout expires (the broker lost the chunk, or acknowledges it late) and the link fails afterwards
+	add(params{Policy: "immediate", Ops: []string{"wA1", "Z", "wB1", "Z"}, F: 2, Store: "default", AckTO: true})
+	add(params{Policy: "none", Ops: []string{"wA1", "F", "Z", "wB1", "F", "Z"}, F: 2, Store: "default", AckTO: true})
 	// a burst of acknowledgements with the end of the link right behind it: the stream's ack path is still
 	// forwarding when the run context ends (the hand-over queues of the stream hold 8)
 	burst := func(n, p int) params {
@@ -170,6 +177,10 @@ type world struct {
 	phase    string
 	n        int
 	cuts     int
+	drops    int
+	stalled  int  // 1 + index of the incarnation whose client-to-broker traffic stalled
+	stalledUntilClose bool // the stalled link failed only when the application's Close had given up waiting and sent its close request
+	dropOpen bool // a chunk vanished on a link that has not failed since
 	rxn      map[string]int
 }
 
@@ -191,13 +202,37 @@ func (w *world) script() *sim.Script {
 		case *message.ConnectResponse:
 			interesting = dir == "tx" && c.Idx > 0
 		}
+		// a link that has stalled client-to-broker traffic (an ordered link: what follows the stalled chunk is stalled too)
+		// still answers pings; it delivers nothing more until it fails
+		stalledHere := w.stalled == c.Idx+1 && dir == "rx"
+		if _, isPing := m.(*message.Ping); isPing {
+			stalledHere = false
+		}
 		if !interesting {
+			if stalledHere {
+				return sim.FaultDrop
+			}
 			return sim.NoFault
 		}
 		key := fmt.Sprintf("%s:%T", dir, m)
 		w.rxn[key]++
-		if vsched.ChooseBudget(fmt.Sprintf("cut@%s#%d", strings.Replace(key, "*message.", "", 1), w.rxn[key]), 2, vsched.BudF) == 1 {
+		nch := 2
+		if _, isChunk := m.(*message.UpstreamChunk); isChunk && w.p.AckTO && dir == "rx" && !stalledHere {
+			nch = 3
+		}
+		choice := vsched.ChooseBudget(fmt.Sprintf("cut@%s#%d", strings.Replace(key, "*message.", "", 1), w.rxn[key]), nch, vsched.BudF)
+		if choice == 2 {
+			w.drops++
+			w.dropOpen = true
+			w.stalled = c.Idx + 1
+			return sim.FaultDrop // stalled from here on: the link stays up, nothing is processed or acknowledged
+		}
+		if choice == 1 {
 			w.cuts++
+			w.dropOpen = false // what was lost was in flight when this link died
+			if _, isClose := m.(*message.UpstreamCloseRequest); isClose && stalledHere {
+				w.stalledUntilClose = true
+			}
 			for _, u := range w.b.Ups {
 				u.Held = nil // acks waiting on the dead connection are lost with it
 			}
@@ -206,6 +241,9 @@ func (w *world) script() *sim.Script {
 				return sim.FaultDrop
 			}
 			return sim.FaultCut
+		}
+		if stalledHere {
+			return sim.FaultDrop
 		}
 		return sim.NoFault
 	}
@@ -349,7 +387,11 @@ func (w *world) main() {
 	} else {
 		pol = iscp.WithUpstreamFlushPolicyImmediately()
 	}
-	up, err := conn.OpenUpstream(ctx, "sess", pol, iscp.WithUpstreamQoS(message.QoSReliable),
+	ackTO := time.Duration(0)
+	if w.p.AckTO {
+		ackTO = time.Second
+	}
+	up, err := conn.OpenUpstream(ctx, "sess", pol, iscp.WithUpstreamQoS(message.QoSReliable), iscp.WithUpstreamAckTimeout(ackTO),
 		iscp.WithUpstreamSendDataPointsHooker(iscp.SendDataPointsHookerFunc(func(id uuid.UUID, c iscp.UpstreamChunk) { w.sendHook = append(w.sendHook, c) })),
 		iscp.WithUpstreamReceiveAckHooker(iscp.ReceiveAckHookerFunc(func(id uuid.UUID, r iscp.UpstreamChunkResult) { w.ackHook = append(w.ackHook, r) })),
 		iscp.WithUpstreamClosedEventHandler(iscp.UpstreamClosedEventHandlerFunc(func(ev *iscp.UpstreamClosedEvent) { w.closed = append(w.closed, ev.Err) })),
@@ -402,6 +444,11 @@ func run(sc vlib.Scenario, cfg vsched.Config) (*vsched.Result, vlib.Verdict) {
 	}
 	if w.connErr != nil {
 		v.Inconclusive = "connect/open failed"
+		return res, v
+	}
+	if w.dropOpen {
+		// a chunk that vanishes on a link that stays up is not a transport failure: C02 speaks about what was in flight when the transport died
+		v.Inconclusive = "chunk lost on a live link"
 		return res, v
 	}
 	if res.Outcome != vsched.Completed && !w.closeDone {
@@ -520,7 +567,11 @@ func (w *world) oracle(v *vlib.Verdict, res *vsched.Result) {
 	sort.Slice(missing, func(i, j int) bool { return missing[i] < missing[j] })
 	sort.Slice(altered, func(i, j int) bool { return altered[i] < altered[j] })
 	state := fmt.Sprintf("close=%v/resumes=%d/cuts=%d", errKind(w.closeErr, w.closeDone), len(u.Resumes), w.cuts)
-	if len(missing) > 0 {
+	if len(missing) > 0 && w.stalledUntilClose && w.closeErr != nil {
+		// the application closed the stream while its chunks were stalled, Close gave up waiting (close timeout) and failed
+		// when the link died under its close request: the application was told, and a closing stream is not resumed
+		v.Outcome = "close-failed-on-stalled-link"
+	} else if len(missing) > 0 {
 		v.Fail("C02.lost", fmt.Sprintf("never-received/closeerr=%v/resumed=%v/dev=%v", errKind(w.closeErr, w.closeDone), len(u.Resumes) > 0, dev), "chunks %v (accepted, announced to the send hook) never reached the broker although the connection is back (%s; closed events %v)", missing, state, w.closed)
 	}
 	if len(altered) > 0 {
